@@ -74,22 +74,22 @@ fn parse_args() -> Args {
 fn default_runs(p: P, thorough: bool) -> u64 {
     let (q, t) = match p {
         P::C01 => (36_000, 400_000),
-        P::C02 => (20_000, 300_000),
-        P::C03 => (8_000, 120_000),
+        P::C02 => (40_000, 400_000),
+        P::C03 => (16_000, 160_000),
         P::C04 => (100_000, 600_000),
-        P::C05 => (25_000, 500_000),
-        P::C06 => (3_000, 40_000),
+        P::C05 => (40_000, 400_000),
+        P::C06 => (6_000, 48_000),
         P::C07 => (40_000, 600_000),
         P::C08 => (40_000, 600_000),
-        P::C09 => (9_600, 96_000),
+        P::C09 => (19_200, 120_000),
         P::C10 => (33_600, 336_000),
         P::C11 => (30_000, 450_000),
-        P::C12 => (6_400, 64_000),
-        P::C13 => (20_000, 300_000),
+        P::C12 => (12_800, 64_000),
+        P::C13 => (40_000, 400_000),
         P::C14 => (36_000, 500_000),
         P::C15 => (40_000, 400_000),
-        P::C16 => (12_000, 160_000),
-        P::C18 => (3_000, 45_000),
+        P::C16 => (24_000, 200_000),
+        P::C18 => (6_000, 48_000),
     };
     if thorough {
         t
